@@ -398,11 +398,18 @@ def _h2_request_headers(idx: int, target_size: Optional[int] = None) -> List[Tup
     return RH.padded_headers(base, target_size) or base
 
 
-async def _drive_h2(cfg: dict, batches: List[List[List[Tuple[bytes, bytes]]]], h2c: bool = False, answer: bool = False) -> dict:
+async def _drive_h2(cfg: dict, batches: List[List[List[Tuple[bytes, bytes]]]], h2c: bool = False, answer: bool = False,
+                    push: Optional[List[List[list]]] = None, client: Optional[dict] = None) -> dict:
     """the real H2Protocol, one `handle(RawData)` per batch of HEADERS frames from a client that ignores the server;
     `h2c`: the connection is opened by `initiate(headers, settings)` (the HTTP/1.1 request of an `Upgrade: h2c` connection is
     served on stream 1); `answer`: after every read the applications of the streams it started send their response head and
-    a first body chunk - `answered` lists the streams whose head reached the client"""
+    a first body chunk - `answered` lists the streams whose head reached the client.
+    `push` (server push; the real send task runs then): `push[i]` = what the applications do after read i (`push[0]` of an h2c
+    connection: after the upgrade, before the first read), a list of `["push", origin, n]` (the application of `origin` sends n
+    `http.response.push` messages) and `["end", origin]` (it sends its complete response); `origin` = `"c<k>"`, the k-th stream
+    opened by the client that reached an application, or `"p<k>"`, the k-th pushed stream.  Every push message is one op
+    `{"op": "push", "accepted": did h2's push_stream return}` with an observation of its own.  `client`: what the client says
+    in its SETTINGS about push (`enable_push`, `max_streams`)."""
     import h2.connection
     import h2.events
     from hypercorn.asyncio.worker_context import WorkerContext
@@ -415,6 +422,9 @@ async def _drive_h2(cfg: dict, batches: List[List[List[Tuple[bytes, bytes]]]], h
         setattr(config, k, v)
     spawned: List[int] = []
     app_sends: Dict[int, Any] = {}
+    scopes: Dict[int, dict] = {}
+    bg: List[Any] = []
+    push_calls: List[Any] = []
     out = bytearray()
     closed = [False]
     taps: List[Any] = []
@@ -423,13 +433,18 @@ async def _drive_h2(cfg: dict, batches: List[List[List[Tuple[bytes, bytes]]]], h
         async def spawn_app(self, app, config_, scope, send):
             spawned.append(send.__self__.stream_id)
             app_sends[send.__self__.stream_id] = send
+            scopes[send.__self__.stream_id] = {"method": scope["method"], "raw_path": bytes(scope["raw_path"]).decode("latin1"), "http_version": scope["http_version"],
+                                               "headers": [[bytes(n).decode("latin1"), bytes(v).decode("latin1")] for n, v in scope["headers"]]}
 
             async def app_put(message):
                 pass
             return app_put
 
         def spawn(self, func, *a):
-            pass                       # the send task is not needed: no application sends anything here
+            # the send task is not needed where no application completes a response; with server push (responses of pushed
+            # streams are completed) it is the real one
+            if push is not None:
+                bg.append(asyncio.ensure_future(func(*a)))
 
     async def send(ev):
         if isinstance(ev, RawData):
@@ -456,11 +471,24 @@ async def _drive_h2(cfg: dict, batches: List[List[List[Tuple[bytes, bytes]]]], h
             taps.append(["close_connection"])
         return o_close(conn, *a, **k)
 
-    H.receive_data, H.close_connection = receive_data, close_connection
+    o_push = H.push_stream
+
+    def push_stream(conn, *a, **k):
+        if conn.config.client_side:
+            return o_push(conn, *a, **k)
+        try:
+            r = o_push(conn, *a, **k)
+        except Exception as e:  # noqa
+            push_calls.append(type(e).__name__)
+            raise
+        push_calls.append(None)
+        return r
+
+    H.receive_data, H.close_connection, H.push_stream = receive_data, close_connection, push_stream
     obs: List[dict] = []
     try:
         proto = H2Protocol(object(), config, WorkerContext(None), TG(), ConnectionState({}), False, ("127.0.0.1", 1), ("10.0.0.1", 80), send)
-        cl = RH.RogueH2(upgrade=h2c)
+        cl = RH.RogueH2(upgrade=h2c, **(client or {}))
         if h2c:
             await proto.initiate([(b":method", b"GET"), (b":scheme", b"http"), (b":authority", b"x"), (b":path", b"/up"), (b"host", b"x")], "")
         else:
@@ -487,6 +515,66 @@ async def _drive_h2(cfg: dict, batches: List[List[List[Tuple[bytes, bytes]]]], h
             await answer_new()
             cl.feed(bytes(out))
             del out[:]
+        push_log: List[dict] = []
+        ended: set = set()
+
+        def snapshot(kind: str) -> dict:
+            return {"op": kind, "served": [s_ for s_ in spawned if s_ % 2 == 1], "pushed": [s_ for s_ in spawned if s_ % 2 == 0],
+                    "goaways": [[g["last"], g["code"]] for g in cl.goaways], "up_closed": closed[0], "kar": proto.keep_alive_requests,
+                    "taps": list(taps), "handler_exception": None, "answered": []}
+
+        async def settle() -> None:
+            for _ in range(8):
+                await asyncio.sleep(0)
+            cl.feed(bytes(out))
+            del out[:]
+
+        def origin_sid(origin: str) -> Optional[int]:
+            pool = [s_ for s_ in spawned if s_ % 2 == (1 if origin[0] == "c" else 0)]
+            k_ = int(origin[1:])
+            return pool[k_] if k_ < len(pool) else None
+
+        async def app_actions(actions: List[list], after_read: int) -> None:
+            for act in actions:
+                sid_ = origin_sid(act[1])
+                if sid_ is None:
+                    continue
+                if act[0] == "end":
+                    raised = None
+                    try:
+                        await app_sends[sid_]({"type": "http.response.start", "status": 200, "headers": [(b"x-sid", b"%d" % sid_)]})
+                        await app_sends[sid_]({"type": "http.response.body", "body": b"pushed" if sid_ % 2 == 0 else b"ok"})
+                    except Exception as e:  # noqa - judged by what reaches the client
+                        raised = type(e).__name__
+                    await settle()
+                    ended.add(sid_)
+                    push_log.append({"what": "end", "sid": sid_, "raised": raised, "after_read": after_read})
+                    if sid_ % 2 == 1:
+                        ops.append({"op": "done", "sid": sid_})
+                        obs.append(snapshot("done"))
+                    continue
+                for j in range(act[2]):
+                    before, n_calls, n_prom, goaway_before = list(spawned), len(push_calls), len(cl.promises), bool(cl.goaways)
+                    path = f"/pushed/{sid_}/{len(push_log)}"
+                    raised = None
+                    try:
+                        await app_sends[sid_]({"type": "http.response.push", "path": path, "headers": [(b"x-from", b"%d" % sid_)]})
+                    except Exception as e:  # noqa
+                        raised = type(e).__name__
+                    await settle()
+                    called = len(push_calls) > n_calls
+                    accepted = called and push_calls[-1] is None
+                    ops.append({"op": "push", "accepted": accepted})
+                    o_ = snapshot("push")
+                    obs.append(o_)
+                    push_log.append({"what": "push", "sid": sid_, "path": path, "raised": raised, "called": called, "accepted": accepted,
+                                     "refusal": push_calls[-1] if called else None, "origin_ended": sid_ in ended, "after_read": after_read,
+                                     "new_instances": [x for x in spawned if x not in before],
+                                     "new_promises": [[p_["parent"], p_["promised"]] for p_ in cl.promises[n_prom:]],
+                                     "conn_closed_before": goaway_before,
+                                     "open_pushed_before": len([x for x in before if x % 2 == 0 and x not in ended])})
+        if push is not None and h2c and push:
+            await app_actions(push[0], -1)
         for batch in batches:
             if closed[0]:
                 break
@@ -507,13 +595,31 @@ async def _drive_h2(cfg: dict, batches: List[List[List[Tuple[bytes, bytes]]]], h
             cl.feed(bytes(out))
             del out[:]
             ops.append({"op": "read", "frames": frames})
+            if push is not None:
+                o_ = snapshot("read")
+                o_["handler_exception"] = exc
+                obs.append(o_)
+                k_ = len([x for x in ops if x["op"] == "read"]) - (0 if h2c else 1)
+                if k_ < len(push) and not closed[0]:
+                    await app_actions(push[k_], k_ - (1 if h2c else 0))
+                continue
             obs.append({"served": list(spawned), "goaways": [[g["last"], g["code"]] for g in cl.goaways], "up_closed": closed[0],
                         "kar": proto.keep_alive_requests, "taps": list(taps), "handler_exception": exc,
                         "answered": sorted(s_ for s_ in answered_by if cl.streams.get(s_, {}).get("status") == 200)})
         return {"ops": ops, "obs": obs, "settings": {str(k): v for k, v in settings.items()}, "parse_error": cl.parse_error, "pre": pre,
-                "answered_by": sorted(answered_by)}
+                "answered_by": sorted(answered_by), "push_log": push_log, "scopes": scopes,
+                "client": {"promises": [{"parent": p_["parent"], "promised": p_["promised"], "headers": [[n.decode("latin1"), v.decode("latin1")] for n, v in p_["headers"]]}
+                                        for p_ in cl.promises],
+                           "streams": {k_: dict(v) for k_, v in cl.streams.items()}}}
     finally:
-        H.receive_data, H.close_connection = o_recv, o_close
+        H.receive_data, H.close_connection, H.push_stream = o_recv, o_close, o_push
+        for t_ in bg:
+            t_.cancel()
+        for t_ in bg:
+            try:
+                await t_
+            except BaseException:  # noqa
+                pass
 
 
 def _h2_model_cfg(cfg: dict) -> dict:
